@@ -42,7 +42,13 @@ def record(kexpr):
 
 
 def validate(report, quick, tag="suite"):
-    traces, pytest_line = record(QUICK_K if quick else FULL_K)
+    try:
+        traces, pytest_line = record(QUICK_K if quick else FULL_K)
+    except (MachineryError, subprocess.SubprocessError, OSError) as exc:
+        # the tree under test may ship no (or other) tests: this stage then has nothing to validate, which
+        # says nothing about the property
+        report.assumptions.append("no trace could be recorded from the repository's own tests (%s): stage skipped" % str(exc)[:200])
+        return True
     used, names = [], []
     for t in traces:
         name, why = t.pop("test"), t.pop("unsupported")
